@@ -7,6 +7,16 @@ package trace
 //@   immutable errHandler next reqHeaders respHeaders log writerMu
 //@   sink writer guarded_by writerMu
 
+// C20: the tracer never intervenes: the wrapped handler runs once behind a forwarding writer over w and sees the request
+// itself; the tracer writes nothing to the client (its record goes to the trace writer).
+//@ func (*Tracer).ServeHTTP
+//@   props C09 C20
+//@   requires t != nil && t.next != nil && req != nil
+//@   modifies everything
+//@   ensures handler_exactly_once: calls(t.next.ServeHTTP) == 1
+//@   ensures writes_nothing_itself: calls(w.WriteHeader) == 0 && calls(w.Write) == 0
+//@   at_call t.next.ServeHTTP forwarding_writer_same_request: arg1 == req && istype(arg0, "*utils.ProxyWriter") && asref(payload(arg0), "*utils.ProxyWriter").w == w
+
 //@ func (*Tracer).newRecord
 //@   props C09 C20
 //@   requires req != nil && pw != nil
